@@ -179,10 +179,11 @@ def gen_factory(rng):
             for _ in range(nco):
                 e = E(); links.append((e, c, sp))
             slow_out = rng.random() < 0.45
+            all_cong = rng.random() < 0.35      # a non-blocking splitter whose out-edges are ALL congested: several items of one pallet are dropped at one instant
             for jj in range(nso):
                 kk = sink(); e = E(); links.append((e, sp, kk))
                 # a non-blocking splitter with several out-edges: one of them is often congested (drops on one edge, pushes on another)
-                if not nodes[sp]["blocking"] and nso >= 2 and jj == 0 and rng.random() < 0.6:
+                if not nodes[sp]["blocking"] and ((nso >= 2 and jj == 0 and rng.random() < 0.6) or all_cong):
                     edges[e].pop("delays", None); edges[e]["cap"] = 1; edges[e]["delay"] = rng.choice([4, 6, 8])
                 # a blocking splitter behind slow out-edges: every unpacked item waits for room (time is charged to BLOCKED, C17; the
                 # worker holds its slot, C08)
@@ -314,6 +315,15 @@ def gen_factory(rng):
     cfg = dict(edges=edges, nodes=nodes, links=links, horizon=hz, shape=shape,
                rseed=rng.randrange(10 ** 6))
     if shape in ("pack", "unpack") and invalid: cfg["invalid"] = invalid   # outside the documented domain: the error named is the rejection
+    # a user selector that answers an index outside [0, n): one factory in ten with a scripted selector gets one such answer (-1, -2 or 9:
+    # out of range for every node of the family).  The node has to reject it with an error (IndexError in a Source, the range assertion
+    # elsewhere) instead of wrapping or ignoring it (C15); the crash is then the documented rejection, not a C20 failure.
+    scripted = [(d, side) for d in nodes for side in ("inp", "out") if isinstance(d.get(side), list)]
+    if scripted and shape != "loop" and rng.random() < 0.10:
+        d, side = rng.choice(scripted)
+        d[side] = list(d[side]); d[side][rng.randrange(len(d[side]))] = rng.choice([-1, -1, -2, 9])
+        cfg["invalid"] = list(cfg.get("invalid", [])) + ["IndexError", "AssertionError"]
+        cfg["oob_selector"] = True
     return cfg
 
 def run_factory(cfg):
